@@ -6,6 +6,9 @@
 (*   "fwd"  name -> value  (a standard name selects the standard code)      *)
 (*   "rev"  value -> name  (a code found in a file is reported under one of *)
 (*                          its standard names)                            *)
+(*   "dec"  value -> name through the library's Enum adapter, with all the  *)
+(*          names its table has for the code: aliased codes are reported    *)
+(*          under a proper standard name, not a range bound or misspelling  *)
 (* Total verdict: a failing event is recorded in `bad`, never a deadlock.   *)
 (***************************************************************************)
 EXTENDS Integers, Sequences, TLC, Json, CSV, IOUtils
@@ -33,7 +36,18 @@ Step ==
   /\ l <= Len(Log)
   /\ l' = l + 1
   /\ LET e == Log[l] IN
-     IF e.name \in RegAmbiguous \/ e.name \notin DOMAIN Reg
+     IF e.kind = "dec"
+     THEN \* decoding direction through the library's own enum adapter: the reported name is one of the table's names for the code, and
+          \* when the code has proper standard names among them (registry names of that value that are not range bounds) it is one of those
+          LET al == {e.aliases[i] : i \in 1..Len(e.aliases)}
+              std == {a \in al : a \in DOMAIN Reg /\ a \notin RegAmbiguous /\ a \notin RegMarkers /\ Reg[a] = e.value}
+          IN IF e.name \notin al
+             THEN checked' = checked + 1 /\ UNCHANGED unknown /\ bad' = bad \cup {<<e.table, e.name, e.value, e.value, "dec_not_a_name_of_the_code">>}
+             ELSE IF std = {} THEN unknown' = unknown + 1 /\ UNCHANGED <<bad, checked>>
+             ELSE /\ checked' = checked + 1 /\ UNCHANGED unknown
+                  /\ IF e.name \in std THEN UNCHANGED bad
+                     ELSE bad' = bad \cup {<<e.table, e.name, e.value, e.value, "dec_nonstandard_name">>}
+     ELSE IF e.name \in RegAmbiguous \/ e.name \notin DOMAIN Reg
      THEN \* a name the registry does not define.  In the decoding direction (code -> name) that is still wrong when the
           \* registry HAS a name for this code in the table's family: a code found in a file must be reported under one
           \* of its standard names.
